@@ -164,3 +164,218 @@ def rule_O6(ctx):
                     "ctx(key) returns the value without rejecting double-underscore keys "
                     "(guards: %s)" % fmt_atoms(atoms), line=r.lineno))
     return res
+
+
+# ====================================================================== O7
+def rule_O7(ctx):
+    """merge_dicts is value-blind: whether a key of `right` lands in `left` depends only on
+    key presence, on both sides being dicts (recursion) and on the overwrite flag - never on
+    the value itself (None, falsy, equal ...).  A value-dependent guard drops or keeps user
+    data by its content, which is exactly what 'values flow through unchanged' excludes."""
+    res = RuleResult("O7", "merge_dicts copies every key of the right operand: its stores are "
+                           "guarded only by key presence, dict-ness of both sides and the "
+                           "overwrite flag, never by the value")
+    prog = ctx.prog
+    f = prog.function("utils.dictionary.merge_dicts")
+    fg = FuncGuards(prog, f)
+    params = list(f.params)
+    if len(params) < 2:
+        raise AnalysisError("merge_dicts signature changed")
+    left, right = params[0], params[1]
+    flags = set(params[2:])
+
+    def flat(atoms):
+        for a in atoms:
+            if a[0] in ("or", "and"):
+                for alt in a[1]:
+                    for x in flat(alt):
+                        yield x
+            else:
+                yield a
+
+    def allowed(a):
+        op, lhs = a[0], a[1]
+        if lhs in (left, right) and op in ("is", "isnot", "truthy", "falsy") and (
+                op in ("truthy", "falsy") or a[2] is None):
+            return True   # absent operand
+        if op in ("in", "notin") and a[2] == ("src", left):
+            return True   # key presence
+        if op in ("isinstance", "notisinstance"):
+            return True   # structural (dict-ness), not the value
+        if op in ("truthy", "falsy") and lhs in flags:
+            return True
+        return False
+
+    sites = []
+    for n in ast.walk(f.node):
+        if isinstance(n, ast.Assign) and any(isinstance(t, ast.Subscript) for t in n.targets):
+            sites.append(n)
+        elif isinstance(n, ast.Call) and callee_name(n) in ("update", "setdefault", f.name):
+            sites.append(n)
+    if len(sites) < 2:
+        raise AnalysisError("merge_dicts: store sites not found")
+    for n in sites:
+        inst = (f.qualname, norm_src(n))
+        bad = [a for a in flat(fg.atoms(n)) if not allowed(a)]
+        if bad:
+            res.violated(inst, Finding(
+                "O7", f.file, f.qualname, norm_src(n),
+                "whether this key is merged depends on the value (%s): a value such as None / "
+                "an equal or falsy value is silently kept from overwriting or from being "
+                "added" % fmt_atoms(bad), line=n.lineno))
+        else:
+            res.holds(inst)
+    # every key of right is visited: the loop iterates right.items() / right unfiltered
+    loops = [n for n in ast.walk(f.node) if isinstance(n, ast.For)]
+    ok = any(unparse(l.iter) in ("%s.items()" % right, right, "%s.keys()" % right) for l in loops)
+    if ok:
+        res.holds((f.qualname, "loop over right"))
+    else:
+        res.violated((f.qualname, "loop"), Finding(
+            "O7", f.file, f.qualname, "iteration over the right operand",
+            "merge_dicts does not iterate all items of its right operand", line=f.node.lineno))
+    return res
+
+
+# ====================================================================== V1
+RENDERERS = {
+    "specs.native.v1.models.TaskSpec.finalize_context": ("in_ctx",),
+    "specs.native.v1.models.WorkflowSpec.render_input": ("runtime_inputs", "in_ctx"),
+    "specs.native.v1.models.WorkflowSpec.render_vars": ("in_ctx",),
+    "specs.native.v1.models.WorkflowSpec.render_output": ("in_ctx",),
+}
+
+
+def rule_V1(ctx):
+    """Rendering of input / vars / publish / output is value-blind: inside these functions no
+    branch condition reads a rendered value, a runtime input value or a value taken out of the
+    context.  What is stored under a name may depend on the definition (is the entry a
+    mapping? is the key present?) but never on what the value happens to be - otherwise some
+    value (None, an equal value, a falsy one) is silently replaced or not published."""
+    res = RuleResult("V1", "input, vars, publish and output rendering never branch on a "
+                           "rendered value, a runtime input value or a value read from the "
+                           "context")
+    prog = ctx.prog
+    for q, mappings in sorted(RENDERERS.items()):
+        f = prog.function(q)
+        maps = set(m for m in mappings if m in f.params)
+        # local copies of the context mappings
+        for n in ast.walk(f.node):
+            if isinstance(n, ast.Assign) and len(n.targets) == 1 and isinstance(
+                    n.targets[0], ast.Name):
+                names = {x.id for x in ast.walk(n.value) if isinstance(x, ast.Name)}
+                calls = {callee_name(c) for c in calls_in(n.value)}
+                if names & maps and calls <= {"deepcopy", "dict", "copy"} and not any(
+                        isinstance(x, ast.Subscript) for x in ast.walk(n.value)):
+                    maps.add(n.targets[0].id)
+
+        def reads_value(e, tainted):
+            for x in ast.walk(e):
+                if isinstance(x, ast.Name) and x.id in tainted and isinstance(x.ctx, ast.Load):
+                    return x.id
+                if isinstance(x, ast.Subscript) and isinstance(x.value, ast.Name) and \
+                        x.value.id in maps and isinstance(x.ctx, ast.Load):
+                    return unparse(x)
+                if isinstance(x, ast.Call) and callee_name(x) in ("get", "pop") and isinstance(
+                        x.func, ast.Attribute) and isinstance(x.func.value, ast.Name) and \
+                        x.func.value.id in maps:
+                    return unparse(x)
+            return None
+
+        tainted = set()
+        for _ in range(4):
+            for n in ast.walk(f.node):
+                if isinstance(n, ast.Assign):
+                    v = n.value
+                    hot = any(callee_name(c) == "evaluate" for c in calls_in(v)) or \
+                        reads_value(v, tainted) is not None
+                    if hot:
+                        for t in n.targets:
+                            for x in ast.walk(t):
+                                if isinstance(x, ast.Name) and isinstance(x.ctx, ast.Store):
+                                    tainted.add(x.id)
+        tainted -= maps
+        tests = []
+        for n in ast.walk(f.node):
+            if isinstance(n, (ast.If, ast.IfExp, ast.While)):
+                tests.append((n, n.test))
+            elif isinstance(n, ast.comprehension):
+                for c in n.ifs:
+                    tests.append((n, c))
+            elif isinstance(n, ast.BoolOp) and not isinstance(
+                    getattr(n, "_parent", None), (ast.If, ast.IfExp, ast.While, ast.BoolOp)):
+                # value-selecting and/or outside a test:  x = a or b
+                for v in n.values[:-1]:
+                    tests.append((n, v))
+        n_ok = 0
+        for owner, t in tests:
+            what = reads_value(t, tainted)
+            inst = (f.qualname, norm_src(t))
+            if what is None:
+                res.holds(inst)
+                n_ok += 1
+            else:
+                res.violated(inst, Finding(
+                    "V1", f.file, f.qualname, "branch on " + norm_src(t),
+                    "%s branches on the value %s: what is stored depends on the value itself, so "
+                    "some value (None, an equal or falsy one) is replaced or not passed on"
+                    % (f.name, what), line=getattr(t, "lineno", f.node.lineno)))
+        stores = [n for n in ast.walk(f.node) if isinstance(n, ast.Assign) and any(
+            isinstance(t, ast.Subscript) for t in n.targets) and reads_value(n.value, tainted)]
+        if stores:
+            res.holds((f.qualname, "stores"), "%d store(s) of rendered values" % len(stores))
+        else:
+            raise AnalysisError("%s no longer stores a rendered value" % q)
+    return res
+
+
+# ====================================================================== V2
+def rule_V2(ctx):
+    """The result a task's transitions are evaluated on is the reported result: on every
+    decision path of make_task_result for a task without items the returned value is the
+    event's result itself - not a value chosen by testing it (0, False, "", [] and {} are
+    results like any other).  Decided by enumerating the function's paths symbolically."""
+    from sa.symx import PathEnumerator, Sym
+    res = RuleResult("V2", "make_task_result hands the reported result through unchanged for a "
+                           "task without items (no test on the value on any path)")
+    prog = ctx.prog
+    f = prog.function("conducting.WorkflowConductor.make_task_result")
+    params = [p for p in f.params if p not in ("self", "cls")]
+    if len(params) < 2:
+        raise AnalysisError("make_task_result signature changed")
+    ev = params[1]
+
+    def atomizer(x, env):
+        node = x.node if isinstance(x, Sym) else x
+        return ("opaque", unparse(node) if node is not None else repr(x))
+
+    leaves = PathEnumerator(prog, f, {}, atomizer).enumerate()
+    n = 0
+    for value, decisions in leaves:
+        no_items = any("has_items" in a[1] and v is False for a, v in decisions)
+        undecided = not any("has_items" in a[1] for a, v in decisions)
+        if not (no_items or undecided):
+            continue
+        n += 1
+        path = ", ".join("%s=%s" % (a[1], v) for a, v in decisions)
+        inst = (f.qualname, path or "unconditional")
+        got = unparse(value.node) if isinstance(value, Sym) and value.node is not None else repr(value)
+        tests_value = [a[1] for a, v in decisions if a[1].replace(" ", "") in (
+            "%s.result" % ev, "not%s.result" % ev)]
+        if isinstance(value, Sym) and value.kind == "expr" and got == "%s.result" % ev \
+                and not tests_value:
+            res.holds(inst)
+        elif undecided and any("TaskItemActionExecutionEvent" in a[1] and v is True
+                               for a, v in decisions):
+            res.holds(inst, "item event (only reported for tasks with items)")
+        else:
+            res.violated(inst, Finding(
+                "V2", f.file, f.qualname, "result on path [%s]" % path,
+                "for a task without items make_task_result returns %s instead of %s.result "
+                "itself%s: a falsy result (0, False, '', [], {}) reaches the transition "
+                "conditions as something else" % (
+                    got, ev, " after testing the value" if tests_value else ""),
+                line=f.node.lineno))
+    if not n:
+        raise AnalysisError("make_task_result: no path for a task without items found")
+    return res
